@@ -221,6 +221,69 @@ pub fn check_tree(tape: &[u16], rc: &mut RCase) -> Result<(), Failure> {
     Ok(())
 }
 
+/// `resolve_tx` against a store whose answers change between fetches: no two rounds agree, so the resolution
+/// ends through its bound on rounds or not at all. The compiler is wrapped; it counts the rounds and refuses to
+/// go on far beyond the bound, which turns "does not return" into an outcome that can be reported.
+pub fn check_unstable_store(tape: &[u16], rc: &mut RCase) -> Result<(), Failure> {
+    use crate::rgen::{self, ROpts};
+    let mut t = Tape::new(tape);
+    let opts = ROpts { allow_refs: false, allow_min_utxo: t.flag(), allow_extras: true, ..ROpts::default() };
+    let sc = rgen::generate(&mut t, &opts);
+    let src = sc.source();
+    let rendered = || sc.to_json();
+    let tir = match pipeline::front(&src, &sc.tx_name) {
+        Ok(t) => t,
+        Err(e) => return Err(Failure::new("harness:template_rejected", e.describe(), rendered())),
+    };
+    let max_rounds = [0usize, 3, 5, 10, 30][t.pick(5)];
+    let bound = max_rounds.max(3) + 2;
+    struct Capped {
+        inner: tx3_cardano::Compiler,
+        compiled: usize,
+        cap: usize,
+    }
+    impl tx3_tir::compile::Compiler for Capped {
+        type CompilerOp = tir::CompilerOp;
+        type Expression = tir::Expression;
+        fn compile(&mut self, tir: &AnyTir) -> Result<tx3_tir::compile::CompiledTx, tx3_tir::compile::Error> {
+            self.compiled += 1;
+            if self.compiled > self.cap {
+                return Err(tx3_tir::compile::Error::FormatError("harness: far beyond the bound on rounds".into()));
+            }
+            self.inner.compile(tir)
+        }
+        fn reduce_op(&self, op: Self::CompilerOp) -> Result<Self::Expression, tx3_tir::reduce::Error> {
+            self.inner.reduce_op(op)
+        }
+        fn reset(&mut self) {
+            self.inner.reset()
+        }
+    }
+    let mut compiler = Capped { inner: pipeline::compiler(&Cfg::default()), compiled: 0, cap: bound + 40 };
+    let store = crate::store::FlickeringStore::new(sc.utxos());
+    let res = guard(|| block_on(tx3_resolver::resolve_tx(AnyTir::V1Beta0(tir), &sc.args(), &mut compiler, &store, max_rounds)));
+    let key = hash64(&format!("{}{:?}{}", src, sc.store, max_rounds));
+    if compiler.compiled > bound {
+        return Err(Failure::new(
+            "rounds_beyond_the_bound",
+            format!("max_optimize_rounds = {}: {} compilations (at most {} are within the bound); the harness stopped the loop at {}", max_rounds, compiler.compiled, bound, bound + 40),
+            rendered(),
+        ));
+    }
+    match res {
+        Err(p) => {
+            let sig = format!("panic:{}", p.sig());
+            if !rc.tolerated(&sig) {
+                return Err(Failure::new(sig, format!("resolve_tx against a store with changing answers: {} ({}:{})", p.message, p.file, p.line), rendered()));
+            }
+        }
+        Ok(r) => rc.label(if r.is_ok() { "unstable_store:ok" } else { "unstable_store:err" }),
+    }
+    rc.label_n("unstable_store:compilations", compiler.compiled as u64);
+    rc.record(key, compiler.compiled >= bound, rendered);
+    Ok(())
+}
+
 pub fn run(tier: Tier, seed: u64) -> Report {
     let mut r = Report::new("C14", tier, seed);
     r.rule = "lowered generated templates and random IR trees (well-typed and arbitrary) x boundary-heavy type-correct \
@@ -231,9 +294,10 @@ pub fn run(tier: Tier, seed: u64) -> Report {
               (panic hook + catch_unwind). distinct = hash of the template and tape; non-trivial = the case got past \
               apply and reduce and reached the compiler or resolve_tx returned Ok"
         .into();
-    r.assumptions = vec!["a hang is caught by the slow-case monitor only (exit 2, inconclusive)".into()];
+    r.assumptions = vec!["a hang is caught by the slow-case monitor only (exit 2, inconclusive), except in the phase store_with_changing_answers, where the wrapped compiler counts the rounds of resolve_tx and reports a loop that passes its bound".into()];
     r.explore("lowered_programs", tier.pick(30_000, 800_000), 700, &|t, rc| check_program(t, rc));
     r.explore("ir_trees", tier.pick(60_000, 2_000_000), 600, &|t, rc| check_tree(t, rc));
+    r.explore("store_with_changing_answers", tier.pick(4_000, 150_000), 300, &|t, rc| check_unstable_store(t, rc));
     r
 }
 
@@ -242,6 +306,8 @@ pub fn replay(phase: &str, tape: &[u16], seed: u64) -> Report {
     r.strict = true;
     if phase == "ir_trees" {
         r.explore_list(phase, &[tape.to_vec()], &|t, rc| check_tree(t, rc));
+    } else if phase == "store_with_changing_answers" {
+        r.explore_list(phase, &[tape.to_vec()], &|t, rc| check_unstable_store(t, rc));
     } else {
         r.explore_list(phase, &[tape.to_vec()], &|t, rc| check_program(t, rc));
     }
